@@ -293,7 +293,7 @@ def r1_tag_chain(ctx, rule, scope='all'):
                {'chains': table})
 
 
-def r2_mask_producer(ctx, rule):
+def r2_mask_producer(ctx, rule, lower_only=True):
     qual = DET + 'alpha_detection.py::detect_alpha'
     fn = ctx.fn(qual)
     stores = stores_in(fn)
@@ -301,6 +301,10 @@ def r2_mask_producer(ctx, rule):
     ws = [nm for nm, lst in stores.items() if any(v is not None and U(v) == 'section[0].lower()' for s, v in lst)]
     other_maps = [(nm, U(v)) for nm, lst in stores.items() for s, v in lst if v is not None and isinstance(v, ast.Call)
                   and isinstance(v.func, ast.Attribute) and v.func.attr in ('casefold', 'upper', 'title', 'swapcase') and U(v.func.value) == 'section[0]']
+    if other_maps and not lower_only and all('casefold' in m_[1] for m_ in other_maps):
+        # casefold() differs from lower() only on letters without a one-to-one case mapping (outside C03's domain)
+        ws = ws + [m_[0] for m_ in other_maps]
+        other_maps = []
     if other_maps:
         ctx.bad(rule, qual, 'alpha words normalised with %s' % other_maps[0][1],
                 "alpha values are stored through str.lower() and the guesser restores capitalisation by applying upper() per 'U' "
@@ -490,7 +494,7 @@ def _adoption(ctx, rule):
 
 
 def rules(tier):
-    return [('C03.R1', r1_tag_chain), ('C03.R2', r2_mask_producer), ('C03.R3', r3_mask_insertion),
+    return [('C03.R1', r1_tag_chain), ('C03.R2', lambda c, r: r2_mask_producer(c, r, lower_only=False)), ('C03.R3', r3_mask_insertion),
             ('C03.R4', lambda c, r: c04.r3_mask_slices(c, r, strict_char_map=False)), ('C03.R5', c04.r2_structural_recursion), ('C03.R6', c04.r1_dispatch),
             ('C03.R7', c01.r8_uniform_scale), ('C03.R8', _renorm),
             ('C03.R9', r9_counted_value_is_segment), ('C03.R10', c01.r4_prob_pt_coupling), ('C03.R11', _adoption)]
